@@ -13,7 +13,8 @@ NAMES = ["a", "b", "c", "d", "e1", "f_", "gg", "h", "i", "k", "m", "n"]
 UNAMES = ["é", "ñá", "λ", "中"]
 NUMBERS = ["1", "2.5", "0x1F", "3j", "1_000", "1e3", ".5", "0o7", "0b11", "7.", "0", "00", "1E-2", "4.5J"]
 STRINGS = ["'s'", '"t"', "b'x'", "r'\\d'", "'''m'''", "'a' 'b'", "u'u'", '"""q"""', "'\\n'", "rb'z'", "''", '"é"',
-           "'a' \"b\" 'c'", "'x'   'y'", "U'v'", "R'\\w'", "B'y'", "Rb'z'", "U'a' 'b'", "bR'c'"]
+           "'a' \"b\" 'c'", "'x'   'y'", "U'v'", "R'\\w'", "B'y'", "Rb'z'", "U'a' 'b'", "bR'c'",
+           "'''a\n    \nb'''", '"""\n\t\n  \n"""', "'''\n \n'''", "r'''x\n        \n    y'''"]
 CONST_ATOMS = ["True", "False", "None", "..."]
 BLOCKS = ["pass\n", "\n{i}pass\n", "\n{i}x = 1\n{i}y\n", "x = 1; y\n", "\n{i}return\n"]
 MACROS = {
